@@ -1,0 +1,27 @@
+// Copyright IBM Corp. 2020, 2025
+// SPDX-License-Identifier: MPL-2.0
+
+//go:build verif
+
+package wal
+
+import "sync/atomic"
+
+// verifHook is only compiled with the "verif" build tag. It lets an external
+// verification harness observe (and pause at) named schedule points.
+var verifHook atomic.Pointer[func(string)]
+
+// SetVerifHook installs fn to be called at every verifPoint (nil to remove).
+func SetVerifHook(fn func(name string)) {
+	if fn == nil {
+		verifHook.Store(nil)
+		return
+	}
+	verifHook.Store(&fn)
+}
+
+func verifPoint(name string) {
+	if fn := verifHook.Load(); fn != nil {
+		(*fn)(name)
+	}
+}
